@@ -173,12 +173,17 @@ Norm(S, t, v) ==
                IN [i \in 1..Len(keep) |-> <<keep[i][1], Norm(S, MsgField(d, keep[i][1]).t, keep[i][2])>>]
           [] d.kind = "union" -> <<v[1], Norm(S, R(Branch(d, v[1]).n), v[2])>>
 
+(* a Go map keeps the LAST value stored under a key: what a decoder hands back for wire data with repeated keys *)
+KeepLast(ps) == SelectSeq([i \in 1..Len(ps) |-> [i |-> i, p |-> ps[i]]],
+                          LAMBDA x : \A j \in (x.i + 1)..Len(ps) : ps[j][1] # x.p[1])
+LastWins(ps) == LET k == KeepLast(ps) IN [i \in 1..Len(k) |-> k[i].p]
+
 (* Canon: like Norm but keeps deprecated fields (what a decoder hands back) *)
 RECURSIVE Canon(_, _, _)
 Canon(S, t, v) ==
   CASE t.k = "p" -> v
     [] t.k = "a" -> [i \in 1..Len(v) |-> Canon(S, t.e, v[i])]
-    [] t.k = "m" -> SortPairs([i \in 1..Len(v) |-> <<v[i][1], Canon(S, t.v, v[i][2])>>])
+    [] t.k = "m" -> SortPairs(LastWins([i \in 1..Len(v) |-> <<v[i][1], Canon(S, t.v, v[i][2])>>]))
     [] t.k = "r" ->
         LET d == Def(S, t.n) IN
         CASE d.kind = "enum" -> v
